@@ -39,6 +39,11 @@ func calleeDisplayName(cc *ssa.CallCommon) string {
 	}
 	switch f := cc.Value.(type) {
 	case *ssa.Function:
+		// an instantiation of a generic function is named by its origin
+		// (Unpack, not Unpack[int32])
+		if o := f.Origin(); o != nil {
+			return o.Name()
+		}
 		return f.Name()
 	case *ssa.MakeClosure:
 		return f.Fn.Name()
@@ -153,6 +158,10 @@ func (x *fx) call(i *ssa.Call, cc *ssa.CallCommon) {
 		ord := x.callOrdinal(i, dname)
 		for k, cl := range x.c.Asserts {
 			if cl.Kind == "assert:"+dname && cl.Loop == ord {
+				if x.assertSeen == nil {
+					x.assertSeen = map[int]bool{}
+				}
+				x.assertSeen[k] = true
 				env := x.instrEnv(i)
 				// arg0, arg1, ... name the call's arguments
 				baseLook := env.look
